@@ -254,6 +254,13 @@ int64_t evaluate_array_ref(
                 Variable *var =
                     interpreter.find_variable(member_array_element_name);
                 if (!var) {
+                    // an index outside the member array is an out-of-bounds
+                    // access, not a missing element
+                    if (Variable *member_array = interpreter.find_variable(
+                            obj_name + "." + member_name)) {
+                        interpreter.ensure_array_index_in_bounds(*member_array,
+                                                                 index);
+                    }
                     throw std::runtime_error(
                         "Member array element not found: " +
                         member_array_element_name);
@@ -397,6 +404,8 @@ int64_t evaluate_array_ref(
                                            "]";
                 Variable *element_var = interpreter.find_variable(element_name);
                 if (!element_var) {
+                    interpreter.ensure_array_index_in_bounds(*target_array,
+                                                             effective_index);
                     throw std::runtime_error(
                         "Struct array element not found: " + element_name);
                 }
@@ -558,6 +567,8 @@ int64_t evaluate_array_ref(
                     array_name + "[" + std::to_string(index) + "]";
                 Variable *element_var = interpreter.find_variable(element_name);
                 if (!element_var) {
+                    interpreter.ensure_array_index_in_bounds(*target_array,
+                                                             index);
                     throw std::runtime_error(
                         "Struct array element not found: " + element_name);
                 }
